@@ -55,9 +55,17 @@ def build(yp, t, env):
     return yp.functor(t["n"], [build(yp, a, env) for a in t["a"]])
 
 
+class CyclicBinding(Exception):
+    """a chain of variable bindings that never ends (a variable bound to itself)"""
+
+
 def walk(x):
+    hops = 0
     while isinstance(x, Variable) and x._is_bound:
         x = x._value
+        hops += 1
+        if hops > 100000:
+            raise CyclicBinding("variable binding chain does not end")
     return x
 
 
